@@ -13,8 +13,10 @@
       (B1) exp of an anti-Hermitian matrix is unitary,
       (B2) exp(G) commutes with everything G commutes with,
       (B3) Rayleigh / variational principle: lambda_min <= psi^dagger P psi <= lambda_max for
-           Hermitian P and normalised psi (needs an order on the scalars; only its algebraic
-           half, theorem 6, is proved).
+           Hermitian P and normalised psi.  Proved here (theorems 6a, 6b): the bound for EVERY P
+           that is unitarily diagonalisable with real eigenvalues, over C.  What remains
+           background is the spectral theorem (every Hermitian matrix is so diagonalisable) and,
+           for the "particle sector" clause, that H restricted to a sector is again Hermitian.
     Everything else is proved for every size. *)
 From Qib Require Import VQE.VqeProofs Base.Inst.
 From Run Require Import GenVqe.
@@ -155,6 +157,30 @@ Theorem C20_spectral_range_partial :
 Proof. intros. split; [rewrite C20_expectation_is_psi_dagger_P_psi; apply quad_diag|reflexivity]. Qed.
 Print Assumptions C20_spectral_range_partial.
 
+(** 6a. For every P = V D V^dagger (V unitary, D = diag d; any commutative *-ring): the energy is
+    the combination of the eigenvalues d_k with the weights |phi_k|^2, phi = V^dagger psi, and
+    the weights sum to psi^dagger psi. *)
+Theorem C20_expectation_in_eigenbasis :
+  forall (K : Scalar) (L : ScalarLaws K) (n : nat) (P V : BMx K) (d : list bool -> K) (psi : vec),
+    unitary n V -> diagonalises n V d P ->
+    expect gen_expect n P psi
+      = bsum n (fun k => smul (d k) (smul (sconj (vadj n V psi k)) (vadj n V psi k)))
+    /\ norm2 n (vadj n V psi) = norm2 n psi.
+Proof.
+  intros K L n P V d psi HV HP. split.
+  - rewrite C20_expectation_is_psi_dagger_P_psi. apply quad_eigenbasis. exact HP.
+  - apply vadj_norm. exact HV.
+Qed.
+Print Assumptions C20_expectation_in_eigenbasis.
+
+(** (the hypotheses of 6a / 6b hold at least for every diagonal P, with V = identity; so 6a
+    contains the diagonal statement 6) *)
+Theorem C20_eigenbasis_hypotheses_hold_for_diagonal :
+  forall (K : Scalar) (L : ScalarLaws K) (n : nat) (d : list bool -> K),
+    unitary n (mid (K:=K)) /\ diagonalises n mid d (diag_mx d).
+Proof. intros. split; [apply unitary_mid|apply diagonalises_diag]. Qed.
+Print Assumptions C20_eigenbasis_hypotheses_hold_for_diagonal.
+
 (** non-vacuity: Y on (1, i) over the Gaussian integers (psi^dagger psi = 2, energy 2 = 1 * 2);
     a double excitation on 4 sites moves two particles and keeps their number *)
 Example C20_instance :
@@ -167,3 +193,23 @@ Example C20_instance :
   dense 2 (exponent (K:=ZI) (-1) (cluster_mx 2 [true; false] (theta_of_list (K:=ZI) 2 [(1,0); (2,0); (3,0); (4,0)]%Z)))
   = [[(0,0); (0,0); (0,0); (0,0)]; [(0,0); (0,0); (1,0); (0,0)]; [(0,0); (-1,0); (0,0); (0,0)]; [(0,0); (0,0); (0,0); (0,0)]]%Z.
 Proof. vm_compute. repeat split. Qed.
+
+(* ------------------------------------------------------------------ over the complex numbers *)
+From Coq Require Import Reals.
+From Coquelicot Require Import Complex.
+From Qib Require Import VQE.VqeReal.
+
+(** 6b. Spectral range over C: P = V D V^dagger with V unitary and real eigenvalues d_k in
+    [lo, hi], psi^dagger psi = 1  ==>  the measured energy is real and lies in [lo, hi].
+    (With the spectral theorem - background - this is the clause "within P's spectral range for
+    normalised psi" for every Hermitian P; take lo = lambda_min, hi = lambda_max.) *)
+Theorem C20_spectral_range_complex_diagonalisable :
+  forall (n : nat) (P V : BMx CV) (d : list bool -> R) (psi : vec (K:=CV)) (lo hi : R),
+    unitary n V -> diagonalises n V (fun k => RtoC (d k)) P ->
+    (forall k, length k = n -> (lo <= d k <= hi)%R) -> norm2 n psi = RtoC 1 ->
+    (lo <= fst (expect gen_expect n P psi) <= hi)%R /\ snd (expect gen_expect n P psi) = 0%R.
+Proof.
+  intros n P V d psi lo hi HV HP Hd Hn. rewrite C20_expectation_is_psi_dagger_P_psi.
+  apply (rayleigh_bounds n P V d psi lo hi); assumption.
+Qed.
+Print Assumptions C20_spectral_range_complex_diagonalisable.
